@@ -206,5 +206,9 @@ Ltac bal :=
 
 Lemma render_balanced : forall e, balanced (render e).
 Proof.
-  induction e; cbn [render]; bal.
+  induction e; cbn [render]; try solve [bal].
+  (* ECast *)
+  change ((l, TLP) :: (l, TType ty) :: (l, TRP) :: wrap (Nat.ltb (prec e) P_PRE) (rootlab e) (render e))
+    with (((l, TLP) :: [(l, TType ty)] ++ [(l, TRP)]) ++ wrap (Nat.ltb (prec e) P_PRE) (rootlab e) (render e)).
+  apply bal_app; [apply bal_paren; apply bal_one; exact I|apply bal_wrap; assumption].
 Qed.
